@@ -1865,3 +1865,182 @@ func runR106(c *Ctx) {
 		}
 	}
 }
+
+// ---- R109: functions that report success by a trailing bool, and their callers ----
+
+func init() {
+	register(&Rule{ID: "R109", Name: "OK-PRODUCER", Floor: 3,
+		Text: "a module function is an ok-producer when its last result is a bool and it has both a return of (nil/zero, false) and a return of (a value built in the function, true). For every ok-producer in the column packages and the root package: (a) every return pairs a nil or zero first result with the constant false and a built value with the constant true (a failure is not reported as success and vice versa); (b) at every call whose ok result is branched on, the value result is used only on the ok==true side (R84's discipline for lookups, applied to these calls). The value-list conversions of the `in` filter are of this shape: a list with unsupported elements must be an error, not an empty set",
+		Run:  runR109})
+}
+
+func runR109(c *Ctx) {
+	p := c.P
+	scope := map[string]bool{rel(""): true}
+	for _, cp := range columnPkgs {
+		scope[rel(cp)] = true
+	}
+	producers := map[*ssa.Function]bool{}
+	type retInfo struct {
+		ret   *ssa.Return
+		isNil bool
+		built bool
+		flag  int // 1 true, 0 false, -1 not constant
+	}
+	infos := map[*ssa.Function][]retInfo{}
+	for _, fn := range p.Funcs {
+		if fn.Pkg == nil || !scope[fn.Pkg.Pkg.Path()] || fn.Parent() != nil {
+			continue
+		}
+		res := fn.Signature.Results()
+		if res.Len() != 2 {
+			continue
+		}
+		if b, ok := res.At(1).Type().Underlying().(*types.Basic); !ok || b.Kind() != types.Bool {
+			continue
+		}
+		switch res.At(0).Type().Underlying().(type) {
+		case *types.Slice, *types.Map, *types.Pointer, *types.Interface:
+		default:
+			continue
+		}
+		var rs []retInfo
+		eachInstr(fn, func(in ssa.Instruction) {
+			ret, ok := in.(*ssa.Return)
+			if !ok || len(ret.Results) != 2 {
+				return
+			}
+			ri := retInfo{ret: ret, flag: -1}
+			if cst, ok := ret.Results[0].(*ssa.Const); ok && cst.IsNil() {
+				ri.isNil = true
+			} else if freshSlice(ret.Results[0], map[ssa.Value]bool{}) {
+				ri.built = true
+			} else if mm, ok := ret.Results[0].(*ssa.MakeMap); ok && mm != nil {
+				ri.built = true
+			}
+			if isConstBool(ret.Results[1], true) {
+				ri.flag = 1
+			} else if isConstBool(ret.Results[1], false) {
+				ri.flag = 0
+			}
+			rs = append(rs, ri)
+		})
+		nilRet, builtRet := false, false
+		for _, r := range rs {
+			if r.isNil {
+				nilRet = true
+			}
+			if r.built {
+				builtRet = true
+			}
+		}
+		if nilRet && builtRet {
+			producers[fn] = true
+			infos[fn] = rs
+		}
+	}
+	for fn, rs := range infos {
+		fnm := fname(fn)
+		for _, r := range rs {
+			key := fnm + "|return"
+			switch {
+			case r.isNil && r.flag == 1:
+				c.bad(key, p.instrPos(r.ret), "a nil result is returned with ok = true: the caller takes the failure for an (empty) success")
+			case r.built && r.flag == 0:
+				c.bad(key, p.instrPos(r.ret), "the built result is returned with ok = false: the caller rejects a valid input")
+			case r.isNil || r.built:
+				c.ok(key, p.instrPos(r.ret), "result and ok flag agree")
+			}
+		}
+	}
+	// (b) callers
+	for _, fn := range p.Funcs {
+		if fn.Pkg == nil || !scope[fn.Pkg.Pkg.Path()] {
+			continue
+		}
+		fnm := fname(fn)
+		eachInstr(fn, func(in ssa.Instruction) {
+			call, ok := in.(*ssa.Call)
+			if !ok {
+				return
+			}
+			callee := call.Call.StaticCallee()
+			if callee == nil || !producers[callee] {
+				return
+			}
+			var val, okv *ssa.Extract
+			for _, r := range *call.Referrers() {
+				if ex, ok := r.(*ssa.Extract); ok {
+					if ex.Index == 0 {
+						val = ex
+					} else {
+						okv = ex
+					}
+				}
+			}
+			if val == nil || okv == nil {
+				return
+			}
+			var trueEdges [][2]*ssa.BasicBlock
+			for _, r := range *okv.Referrers() {
+				if iff, ok := r.(*ssa.If); ok {
+					trueEdges = append(trueEdges, [2]*ssa.BasicBlock{iff.Block(), iff.Block().Succs[0]})
+				}
+				if u, ok := r.(*ssa.UnOp); ok && u.Op == token.NOT {
+					for _, r2 := range *u.Referrers() {
+						if iff, ok := r2.(*ssa.If); ok {
+							trueEdges = append(trueEdges, [2]*ssa.BasicBlock{iff.Block(), iff.Block().Succs[1]})
+						}
+					}
+				}
+			}
+			if len(trueEdges) == 0 {
+				return
+			}
+			key := fnm + "|call of " + fname(callee)
+			bad := ""
+			for _, r := range *val.Referrers() {
+				if _, isDbg := r.(*ssa.DebugRef); isDbg {
+					continue
+				}
+				if _, isRet := r.(*ssa.Return); isRet {
+					continue // forwarded together with ok
+				}
+				under := false
+				for _, e := range trueEdges {
+					si := 0
+					if e[0].Succs[1] == e[1] {
+						si = 1
+					}
+					if edgeDominates(e[0], si, r.Block()) {
+						under = true
+					}
+				}
+				if phi, isPhi := r.(*ssa.Phi); isPhi {
+					for i, e := range phi.Edges {
+						if e == ssa.Value(val) {
+							pred := phi.Block().Preds[i]
+							for _, te := range trueEdges {
+								si := 0
+								if te[0].Succs[1] == te[1] {
+									si = 1
+								}
+								if edgeDominates(te[0], si, pred) || pred == te[0] && phi.Block() == te[1] {
+									under = true
+								}
+							}
+						}
+					}
+				}
+				if !under {
+					bad = p.instrPos(r)
+				}
+			}
+			if bad == "" {
+				c.ok(key, p.instrPos(call), "the value is used only where ok holds")
+			} else {
+				c.bad(key, p.instrPos(call), "the value returned by "+fname(callee)+" is used at "+bad+" although its ok result is not known to be true there")
+			}
+		})
+	}
+}
